@@ -272,7 +272,7 @@ theorem decode_nc : (t : Ty) → t.wf = true → t.total = true → ∀ (path : 
       (by simpa [emitM, emit] using hfresh)).bind fun vals t _ => NC.ok _ _
   | .tpm2bBytes name szName szP bufName elem, hwf, htot, path, sel, s, _, hfresh => by
     simp only [Ty.wf, Bool.and_eq_true, decide_eq_true_eq] at hwf
-    obtain ⟨⟨hwsz, hszpos⟩, hwel⟩ := hwf
+    obtain ⟨⟨⟨hwsz, hszpos⟩, hwel⟩, _⟩ := hwf
     simp only [Ty.total, Bool.not_eq_true'] at htot
     simp only [decode]
     refine (readPrim_nc szP _ _).bind fun nv s1 h1 => ?_
